@@ -70,7 +70,7 @@ pub(super) fn update_check(d0: &[usize], d1: &[usize], d2: &[usize], rounds: usi
                             "C13 new = old - learning_rate * own gradient, element by element");
                     i += 1;
                 }
-                assert!(p.is_tracked.get() && p.keep_gradient.get(), "C13 updated parameter is tracked");
+                assert!(p.is_tracked.get(), "C13 updated parameter is tracked");
                 assert!(grad_of(p).is_none() && node_clean(p) && p.children.is_empty() && p.backward_op.is_none(),
                         "C13 updated parameter is a fresh leaf with no gradient");
                 assert!(!Rc::ptr_eq(&p.values, &old[k].values), "C08 update replaces the array, it does not mutate it");
